@@ -51,10 +51,14 @@ def fit_mvstud(data, tolerance=1e-6, max_iter=100):
             )
             return f
 
-        if func0(1e300) >= 0:
+        # Upper end of the bracket: beyond ~1e8 every term of func0 rounds to
+        # exactly 0 in double precision, so the sign test must be made where
+        # the function still resolves (nu >= 1e6 is Gaussian for all purposes)
+        nu_max = 1e6
+        if func0(nu_max) >= 0:
             nu = np.inf
         else:
-            nu = optimize.bisect(func0, 1e-300, 1e300)
+            nu = optimize.bisect(func0, 1e-300, nu_max)
         return nu
 
     data = data.T
